@@ -26,9 +26,9 @@ theorem read_4_2 (l4 : Bytes) :
     (by simp [f0.c2f, f1.c2f, f2.c2f, f3.c2f, f4.c2f, f5.c2f, f6.c2f, f7.c2f])]
   simp only [C22.parseV6Int, C22.v6Parts, splitOn_append_sep, splitOn_no_sep, splitOn_sep_cons, splitOn_nil,
     f0.c3a, f1.c3a, f2.c3a, f3.c3a, f4.c3a, f5.c3a, f6.c3a, f7.c3a, not_false_eq_true, List.not_mem_nil]
-  simp [f0.c2e, f1.c2e, f2.c2e, f3.c2e, f4.c2e, f5.c2e, f6.c2e, f7.c2e, f0.ne, f1.ne, f2.ne, f3.ne, f4.ne, f5.ne, f6.ne, f7.ne]
+  simp [f0.c2e, f1.c2e, f2.c2e, f3.c2e, f4.c2e, f5.c2e, f6.c2e, f7.c2e, f0.ne, f1.ne, f2.ne, f3.ne, f4.ne, f5.ne, f6.ne, f7.ne, -Nat.reducePow]
   simp [C22.assembleV6, C22.interiorEmpty, List.range_succ, C22.Part.isEmpty,
-    f0.ne, f1.ne, f2.ne, f3.ne, f4.ne, f5.ne, f6.ne, f7.ne]
+    f0.ne, f1.ne, f2.ne, f3.ne, f4.ne, f5.ne, f6.ne, f7.ne, -Nat.reducePow]
   simp [C22.assembleSkip, C22.foldParts, C22.Part.val, f0.ph, f1.ph, f2.ph, f3.ph, f4.ph, f5.ph, f6.ph, f7.ph, fw, -Nat.reducePow]
 
 theorem read_4_3 (l4 : Bytes) :
@@ -44,9 +44,9 @@ theorem read_4_3 (l4 : Bytes) :
     (by simp [f0.c2f, f1.c2f, f2.c2f, f3.c2f, f4.c2f, f5.c2f, f6.c2f, f7.c2f])]
   simp only [C22.parseV6Int, C22.v6Parts, splitOn_append_sep, splitOn_no_sep, splitOn_sep_cons, splitOn_nil,
     f0.c3a, f1.c3a, f2.c3a, f3.c3a, f4.c3a, f5.c3a, f6.c3a, f7.c3a, not_false_eq_true, List.not_mem_nil]
-  simp [f0.c2e, f1.c2e, f2.c2e, f3.c2e, f4.c2e, f5.c2e, f6.c2e, f7.c2e, f0.ne, f1.ne, f2.ne, f3.ne, f4.ne, f5.ne, f6.ne, f7.ne]
+  simp [f0.c2e, f1.c2e, f2.c2e, f3.c2e, f4.c2e, f5.c2e, f6.c2e, f7.c2e, f0.ne, f1.ne, f2.ne, f3.ne, f4.ne, f5.ne, f6.ne, f7.ne, -Nat.reducePow]
   simp [C22.assembleV6, C22.interiorEmpty, List.range_succ, C22.Part.isEmpty,
-    f0.ne, f1.ne, f2.ne, f3.ne, f4.ne, f5.ne, f6.ne, f7.ne]
+    f0.ne, f1.ne, f2.ne, f3.ne, f4.ne, f5.ne, f6.ne, f7.ne, -Nat.reducePow]
   simp [C22.assembleSkip, C22.foldParts, C22.Part.val, f0.ph, f1.ph, f2.ph, f3.ph, f4.ph, f5.ph, f6.ph, f7.ph, fw, -Nat.reducePow]
 
 theorem read_4_4 (l4 : Bytes) :
@@ -62,9 +62,9 @@ theorem read_4_4 (l4 : Bytes) :
     (by simp [f0.c2f, f1.c2f, f2.c2f, f3.c2f, f4.c2f, f5.c2f, f6.c2f, f7.c2f])]
   simp only [C22.parseV6Int, C22.v6Parts, splitOn_append_sep, splitOn_no_sep, splitOn_sep_cons, splitOn_nil,
     f0.c3a, f1.c3a, f2.c3a, f3.c3a, f4.c3a, f5.c3a, f6.c3a, f7.c3a, not_false_eq_true, List.not_mem_nil]
-  simp [f0.c2e, f1.c2e, f2.c2e, f3.c2e, f4.c2e, f5.c2e, f6.c2e, f7.c2e, f0.ne, f1.ne, f2.ne, f3.ne, f4.ne, f5.ne, f6.ne, f7.ne]
+  simp [f0.c2e, f1.c2e, f2.c2e, f3.c2e, f4.c2e, f5.c2e, f6.c2e, f7.c2e, f0.ne, f1.ne, f2.ne, f3.ne, f4.ne, f5.ne, f6.ne, f7.ne, -Nat.reducePow]
   simp [C22.assembleV6, C22.interiorEmpty, List.range_succ, C22.Part.isEmpty,
-    f0.ne, f1.ne, f2.ne, f3.ne, f4.ne, f5.ne, f6.ne, f7.ne]
+    f0.ne, f1.ne, f2.ne, f3.ne, f4.ne, f5.ne, f6.ne, f7.ne, -Nat.reducePow]
   simp [C22.assembleSkip, C22.foldParts, C22.Part.val, f0.ph, f1.ph, f2.ph, f3.ph, f4.ph, f5.ph, f6.ph, f7.ph, fw, -Nat.reducePow]
 
 theorem read_5_2 (l4 : Bytes) :
@@ -80,9 +80,9 @@ theorem read_5_2 (l4 : Bytes) :
     (by simp [f0.c2f, f1.c2f, f2.c2f, f3.c2f, f4.c2f, f5.c2f, f6.c2f, f7.c2f])]
   simp only [C22.parseV6Int, C22.v6Parts, splitOn_append_sep, splitOn_no_sep, splitOn_sep_cons, splitOn_nil,
     f0.c3a, f1.c3a, f2.c3a, f3.c3a, f4.c3a, f5.c3a, f6.c3a, f7.c3a, not_false_eq_true, List.not_mem_nil]
-  simp [f0.c2e, f1.c2e, f2.c2e, f3.c2e, f4.c2e, f5.c2e, f6.c2e, f7.c2e, f0.ne, f1.ne, f2.ne, f3.ne, f4.ne, f5.ne, f6.ne, f7.ne]
+  simp [f0.c2e, f1.c2e, f2.c2e, f3.c2e, f4.c2e, f5.c2e, f6.c2e, f7.c2e, f0.ne, f1.ne, f2.ne, f3.ne, f4.ne, f5.ne, f6.ne, f7.ne, -Nat.reducePow]
   simp [C22.assembleV6, C22.interiorEmpty, List.range_succ, C22.Part.isEmpty,
-    f0.ne, f1.ne, f2.ne, f3.ne, f4.ne, f5.ne, f6.ne, f7.ne]
+    f0.ne, f1.ne, f2.ne, f3.ne, f4.ne, f5.ne, f6.ne, f7.ne, -Nat.reducePow]
   simp [C22.assembleSkip, C22.foldParts, C22.Part.val, f0.ph, f1.ph, f2.ph, f3.ph, f4.ph, f5.ph, f6.ph, f7.ph, fw, -Nat.reducePow]
 
 theorem read_5_3 (l4 : Bytes) :
@@ -98,9 +98,9 @@ theorem read_5_3 (l4 : Bytes) :
     (by simp [f0.c2f, f1.c2f, f2.c2f, f3.c2f, f4.c2f, f5.c2f, f6.c2f, f7.c2f])]
   simp only [C22.parseV6Int, C22.v6Parts, splitOn_append_sep, splitOn_no_sep, splitOn_sep_cons, splitOn_nil,
     f0.c3a, f1.c3a, f2.c3a, f3.c3a, f4.c3a, f5.c3a, f6.c3a, f7.c3a, not_false_eq_true, List.not_mem_nil]
-  simp [f0.c2e, f1.c2e, f2.c2e, f3.c2e, f4.c2e, f5.c2e, f6.c2e, f7.c2e, f0.ne, f1.ne, f2.ne, f3.ne, f4.ne, f5.ne, f6.ne, f7.ne]
+  simp [f0.c2e, f1.c2e, f2.c2e, f3.c2e, f4.c2e, f5.c2e, f6.c2e, f7.c2e, f0.ne, f1.ne, f2.ne, f3.ne, f4.ne, f5.ne, f6.ne, f7.ne, -Nat.reducePow]
   simp [C22.assembleV6, C22.interiorEmpty, List.range_succ, C22.Part.isEmpty,
-    f0.ne, f1.ne, f2.ne, f3.ne, f4.ne, f5.ne, f6.ne, f7.ne]
+    f0.ne, f1.ne, f2.ne, f3.ne, f4.ne, f5.ne, f6.ne, f7.ne, -Nat.reducePow]
   simp [C22.assembleSkip, C22.foldParts, C22.Part.val, f0.ph, f1.ph, f2.ph, f3.ph, f4.ph, f5.ph, f6.ph, f7.ph, fw, -Nat.reducePow]
 
 theorem read_6_2 (l4 : Bytes) :
@@ -116,9 +116,9 @@ theorem read_6_2 (l4 : Bytes) :
     (by simp [f0.c2f, f1.c2f, f2.c2f, f3.c2f, f4.c2f, f5.c2f, f6.c2f, f7.c2f])]
   simp only [C22.parseV6Int, C22.v6Parts, splitOn_append_sep, splitOn_no_sep, splitOn_sep_cons, splitOn_nil,
     f0.c3a, f1.c3a, f2.c3a, f3.c3a, f4.c3a, f5.c3a, f6.c3a, f7.c3a, not_false_eq_true, List.not_mem_nil]
-  simp [f0.c2e, f1.c2e, f2.c2e, f3.c2e, f4.c2e, f5.c2e, f6.c2e, f7.c2e, f0.ne, f1.ne, f2.ne, f3.ne, f4.ne, f5.ne, f6.ne, f7.ne]
+  simp [f0.c2e, f1.c2e, f2.c2e, f3.c2e, f4.c2e, f5.c2e, f6.c2e, f7.c2e, f0.ne, f1.ne, f2.ne, f3.ne, f4.ne, f5.ne, f6.ne, f7.ne, -Nat.reducePow]
   simp [C22.assembleV6, C22.interiorEmpty, List.range_succ, C22.Part.isEmpty,
-    f0.ne, f1.ne, f2.ne, f3.ne, f4.ne, f5.ne, f6.ne, f7.ne]
+    f0.ne, f1.ne, f2.ne, f3.ne, f4.ne, f5.ne, f6.ne, f7.ne, -Nat.reducePow]
   simp [C22.assembleSkip, C22.foldParts, C22.Part.val, f0.ph, f1.ph, f2.ph, f3.ph, f4.ph, f5.ph, f6.ph, f7.ph, fw, -Nat.reducePow]
 end
 end MitmVerif.C21
